@@ -109,6 +109,15 @@ class Recorder:
         for r in m.answers:
             i = KEY.get((low(r.name.text), r.type, wire.rd_key(r.type, r.rd)), 0)
             ka.append([i, r.ttl if r.ttl is not None and r.ttl < 2 ** 31 else -1])
+        try:
+            task = asyncio.current_task()
+        except RuntimeError:
+            task = None
+        if task is not None and task.get_name() == 'bg-lookup':
+            # another lookup for the same instance running on this host (not judged itself): what it asks enters the
+            # question history the judged lookup is suppressed by
+            self.ev('bgquery', qs=qs, ka=[k[0] for k in ka])
+            return
         self.ev('query', qs=qs, ka=ka, tc=m.tc, mc=e['dst'] in (simnet.MDNS_ADDR, simnet.MDNS_ADDR6), nauth=len(m.authorities),
                 nadd=len(m.additionals), flags=m.flags)
 
@@ -167,8 +176,14 @@ class Recorder:
                 self.items_by[data] = st['items']
                 self.host.inject(data, src=st.get('src', '10.0.0.9'))
             elif op == 'lookup':
-                lid += 1
-                self.tasks.append(asyncio.ensure_future(self.lookup(st, lid)))
+                if st.get('bg'):
+                    from zeroconf.asyncio import AsyncServiceInfo
+                    bg = asyncio.ensure_future(AsyncServiceInfo(TYPE, INST).async_request(self.host.zc, st['timeout']))
+                    bg.set_name('bg-lookup')
+                    self.tasks.append(bg)
+                else:
+                    lid += 1
+                    self.tasks.append(asyncio.ensure_future(self.lookup(st, lid)))
                 await asyncio.sleep(0)
             else:
                 raise ValueError(op)
@@ -184,7 +199,7 @@ class Recorder:
         extra = []
         last_t = self.events[-1]['t'] if self.events else 0
         for e in self.net.log:
-            if e['ev'] == 'rand' and e['site'] == 'lookup':
+            if e['ev'] == 'rand' and e['site'] == 'lookup' and e.get('task') != 'bg-lookup':
                 extra.append(((e['seq'], 0, 0), {'ev': 'rand', 't': e['t'], 'site': 'lookup', 'v': e['v']}))
             elif e['ev'] == 'exc' and e['t'] <= last_t:
                 extra.append(((e['seq'], 0, 0), {'ev': 'exc', 't': e['t'], 'what': str(e.get('cls')), 'msg': str(e.get('msg'))}))
@@ -242,6 +257,9 @@ def gen_lookup(rng: random.Random, sid: str, thorough: bool = False) -> dict:
     else:
         for i in [srv, txt] + addr_ids + ([other_addr] if rng.random() < 0.4 else []):
             pre(i)
+    if rng.random() < 0.1:
+        # another lookup for the same instance is already under way on this host
+        evs.append((t0 - rng.choice([300, 600, 1100, 2100]), {'op': 'lookup', 'bg': True, 'timeout': 3000}))
     evs.append((t0, {'op': 'lookup', 'timeout': timeout, 'forced': rng.choice(['none', 'none', 'none', 'QU', 'QM']),
                      'sp': rng.randint(0, 2), 'via': rng.choice(['info', 'info', 'aiozc', 'zc'])}))
     # records arriving while the lookup waits
